@@ -2,6 +2,7 @@ package props
 
 import (
 	"bytes"
+	"context"
 	"errors"
 	"fmt"
 	"html/template"
@@ -11,6 +12,7 @@ import (
 	"path/filepath"
 	"runtime"
 	"strconv"
+	"syscall"
 
 	"go.pennock.tech/tabular"
 	"go.pennock.tech/tabular/csv"
@@ -43,7 +45,20 @@ const (
 
 var c15ModeNames = []string{"fails from call k on", "fails only at call k", "partial write with error at call k", "complete write reported together with an error at call k", "all but one byte written at call k, failing from then on"}
 
+// The error a failing destination returns is the destination's business: any non-nil error value is a failure,
+// including the ones some code uses as end markers or treats as benign.
+type c15AgreeableErr struct{}
+
+func (c15AgreeableErr) Error() string        { return "an error whose Is method says yes to every target" }
+func (c15AgreeableErr) Is(target error) bool { return true }
+
+var c15Errs = []error{
+	errInjected, io.EOF, fmt.Errorf("connection lost: %w", io.EOF), io.ErrUnexpectedEOF, io.ErrShortWrite, io.ErrClosedPipe,
+	os.ErrClosed, context.Canceled, syscall.EPIPE, syscall.EAGAIN, c15AgreeableErr{}, errors.New(""), io.ErrNoProgress,
+}
+
 type scriptWriter struct {
+	err      error // what the failing calls return (errInjected when nil)
 	k, mode  int
 	calls    int
 	accepted []byte
@@ -52,6 +67,10 @@ type scriptWriter struct {
 }
 
 func (w *scriptWriter) Write(p []byte) (int, error) {
+	errInjected := w.err
+	if errInjected == nil {
+		errInjected = c15Errs[0]
+	}
 	w.calls++
 	if w.failed {
 		w.after++
@@ -176,6 +195,7 @@ type c15Case struct {
 	Renderer string        `json:"renderer"`
 	K        int           `json:"failing_call_k"`
 	Mode     string        `json:"mode"`
+	Err      string        `json:"error_value_returned_by_the_writer"`
 	N        int           `json:"fault_free_write_calls"`
 	Skipable bool          `json:"json_skipable_default"`
 }
@@ -209,10 +229,12 @@ func c15Inject(c *Ctx, spec *gen.TableSpec, skipable bool, sample bool) {
 				kind := mode / c15NModes // 0: plain io.Writer; 1: a writer that also implements io.StringWriter
 				mode := mode % c15NModes
 				cs.K, cs.Mode = k, c15ModeNames[mode]
-				w := &scriptWriter{k: k, mode: mode}
+				cs.Err = fmt.Sprintf("%T %q", c15Errs[(k*7+mode*3+kind)%len(c15Errs)], c15Errs[(k*7+mode*3+kind)%len(c15Errs)].Error())
+				werr := c15Errs[(k*7+mode*3+kind)%len(c15Errs)]
+				w := &scriptWriter{k: k, mode: mode, err: werr}
 				var dst io.Writer = w
 				if kind == 1 {
-					sw := &scriptStringWriter{scriptWriter{k: k, mode: mode}}
+					sw := &scriptStringWriter{scriptWriter{k: k, mode: mode, err: werr}}
 					w, dst = &sw.scriptWriter, sw
 					cs.Mode += " (writer also implements io.StringWriter)"
 				}
@@ -473,6 +495,7 @@ func init() {
 			"Distinct = distinct (table, renderer); non-trivial = the fault-free run makes at least one Write call.",
 		Assumptions: []string{
 			"a writer returning a short count with a nil error breaks the io.Writer contract and is not injected",
+			"the error value the failing calls return rotates through 13 values (a private one, io.EOF bare and wrapped, io.ErrUnexpectedEOF, io.ErrShortWrite, io.ErrClosedPipe, os.ErrClosed, context.Canceled, EPIPE, EAGAIN, an error whose Is says yes to everything, an error with an empty message, io.ErrNoProgress)",
 			"the error value returned need not be the injected one, only non-nil",
 			"each injection runs on a freshly built table and wrapper",
 		},
